@@ -213,7 +213,11 @@ func (sc *Script) clientMsgs(c *cliSess) []Pkt {
 		if c.S.Proto == 3 && bin && !c.S.B64 {
 			class = 0 // v3 binary payload framing: string packets stay ASCII (see DESIGN limits)
 		}
-		ps = append(ps, sc.w.ClientMsg(sendSizes[r.Intn(5)], bin, class))
+		nsz := 5
+		if sc.cfg.MaxBuf > 0 {
+			nsz = 4 // a small payload limit is configured: every single message (and every payload of up to 3) stays well below it
+		}
+		ps = append(ps, sc.w.ClientMsg(sendSizes[r.Intn(nsz)], bin, class))
 	}
 	if c.S.Proto == 3 && !c.S.B64 && !c.S.JSONP {
 		hasBin := false
@@ -541,6 +545,9 @@ func scriptFamily(fam string, seed int64, n int) []Scenario {
 		}
 		if i%7 == 3 {
 			cfg.UT = 500 * time.Millisecond
+		}
+		if i%6 == 2 {
+			cfg.MaxBuf = 2000 // many small messages add up to far more than the limit: it is a per-message limit
 		}
 		var w map[string]int
 		var gates []string
